@@ -27,6 +27,7 @@
 #include <stdlib.h>
 #include "EbThreads.h"
 #include "EbLog.h"
+#include "EbVerifHooks.h"
 /****************************************
   * Win32 Includes
   ****************************************/
@@ -60,6 +61,7 @@ void printfTime(const char *fmt, ...) {
  * svt_create_thread
  ****************************************/
 EbHandle svt_create_thread(void *thread_function(void *), void *thread_context) {
+    SVT_VERIF_SCHED(SVT_VERIF_SITE_THREAD_CREATE);
     EbHandle thread_handle = NULL;
 
 #ifdef _WIN32
@@ -230,6 +232,7 @@ EbErrorType svt_post_semaphore(EbHandle semaphore_handle) {
                                                        : EB_ErrorNone;
 #endif
 
+    SVT_VERIF_SCHED(SVT_VERIF_SITE_SEM_POST);
     return return_error;
 }
 
@@ -238,6 +241,7 @@ EbErrorType svt_post_semaphore(EbHandle semaphore_handle) {
  ***************************************/
 EbErrorType svt_block_on_semaphore(EbHandle semaphore_handle) {
     EbErrorType return_error;
+    SVT_VERIF_SCHED(SVT_VERIF_SITE_SEM_WAIT);
 
 #ifdef _WIN32
     return_error = WaitForSingleObject((HANDLE)semaphore_handle, INFINITE)
@@ -314,6 +318,7 @@ EbErrorType svt_release_mutex(EbHandle mutex_handle) {
                                                                          : EB_ErrorNone;
 #endif
 
+    SVT_VERIF_SCHED(SVT_VERIF_SITE_MUTEX_UNLOCK);
     return return_error;
 }
 
@@ -322,6 +327,7 @@ EbErrorType svt_release_mutex(EbHandle mutex_handle) {
  ***************************************/
 EbErrorType svt_block_on_mutex(EbHandle mutex_handle) {
     EbErrorType return_error;
+    SVT_VERIF_SCHED(SVT_VERIF_SITE_MUTEX_LOCK);
 
 #ifdef _WIN32
     return_error = WaitForSingleObject((HANDLE)mutex_handle, INFINITE) ? EB_ErrorMutexUnresponsive
@@ -404,6 +410,7 @@ EbErrorType svt_set_cond_var(CondVar *cond_var, int32_t newval)
     return_error |= pthread_cond_broadcast(&cond_var->m_cond);
     return_error |= pthread_mutex_unlock(&cond_var->m_mutex);
 #endif
+    SVT_VERIF_SCHED(SVT_VERIF_SITE_COND_SET);
     return return_error;
 }
 /*
@@ -414,6 +421,7 @@ EbErrorType svt_set_cond_var(CondVar *cond_var, int32_t newval)
 EbErrorType svt_wait_cond_var(CondVar *cond_var, int32_t input)
 {
     EbErrorType return_error;
+    SVT_VERIF_SCHED(SVT_VERIF_SITE_COND_WAIT);
 
 #ifdef _WIN32
 
